@@ -161,6 +161,8 @@ Proof.
   - apply rename_keys_shared; exact Hs.
   - unfold ds_init. destruct (align _ _ _ _ _); [|apply shared_empty].
     apply (fold_rename_shared (fun st p => ds_setitem (fst p) (snd p) st)); [intros; apply setitem_shared; assumption | apply shared_empty].
+  - unfold ds_append_axis. destruct (mem_str _ _); [exact Hs|]. intros v Hv id Hid. simpl in *.
+    apply in_or_app. left. apply (Hs v Hv id Hid).
 Qed.
 
 (* every reachable state: any finite history from the empty dataset *)
@@ -754,6 +756,7 @@ Definition op_ok (s : dset) (o : dsop) : Prop :=
   | DSetAxis r _ _ name => forall id n, ds_axis_ref s r = Ok id -> name = Some n -> ~ In n (ds_dims s) \/ n = aname (hget (heap s) id)
   | DRenameKeys m => renkeys_ok s m
   | DInit _ => True
+  | DAppendAxis _ => False      (* an axis appended directly is used by no variable: outside the bookkeeping invariant (sharing, above, holds) *)
   end.
 Fixpoint ops_ok (s : dset) (ops : list dsop) : Prop :=
   match ops with [] => True | o :: t => op_ok s o /\ ops_ok (fst (ds_step s o)) t end.
@@ -773,6 +776,7 @@ Proof.
   - apply rename_key_inv_total; exact Hi.
   - apply rename_keys_inv; assumption.
   - apply init_inv.
+  - destruct Hok.
 Qed.
 
 (* every state reachable from the empty dataset by such a history: variables share the dataset's axis
